@@ -54,6 +54,17 @@ func directiveBody(mask int, r *Rand) string {
 			parts = append(parts, fmt.Sprintf("%s: %v", n, on))
 		}
 	}
+	if r.Intn(4) == 0 {
+		// `optimize:<bool>` first, the exceptions after it on the SAME line: ;;;; optimize:true, reordering:false
+		base := r.Bool()
+		ents := []string{fmt.Sprintf("optimize:%v", base)}
+		for i, n := range optNames {
+			if on := mask&(1<<i) != 0; on != base {
+				ents = append(ents, fmt.Sprintf("%s:%v", n, on))
+			}
+		}
+		return ";;;; " + strings.Join(ents, ", ") + "\n"
+	}
 	if mask == 0 && r.Bool() {
 		return ";;;; optimize:false\n"
 	}
@@ -211,7 +222,7 @@ func init() {
 					t = gop(pick(r, andNames), gop("!=", gvar("i0"), gconst(int64(0))), gop(">", gop("/", gconst(int64(10)), gconst(int64(0))), gconst(int64(1))), t)
 				}
 				mask := []int{15, 1, r.Intn(16)}[r.Intn(3)]
-				rc := &RunCfg{Opts: optSubset(mask, r.Bool()), Stateless: randStatelessHeavy(r)}
+				rc := &RunCfg{Opts: optSubset(mask, r.Bool()), Stateless: randStatelessHeavy(r), Shadow: r.Intn(5) == 0}
 				if r.Intn(4) == 0 { // a derived configuration with a sibling that declares the other operators
 					rc.Sibling = []string{}
 					for _, nme := range testOpNames {
